@@ -99,3 +99,57 @@ def run_apply(case):
         tr["labels"] = [[e.dec(x) for e, x in zip(encs, t)] for t in idx.tolist()] if isinstance(idx, pd.MultiIndex) else [[encs[0].dec(x)] for x in idx.tolist()]
     tr["got"] = sorted(got)
     return tr
+
+
+def _labels_of(index, encs):
+    if isinstance(index, pd.MultiIndex):
+        return [[e.dec(x) for e, x in zip(encs, t)] for t in index.tolist()]
+    return [[encs[0].dec(x)] for x in index.tolist()]
+
+
+def run_compose(case):
+    """case: kind agg|ratio|density, keys, kenc, vals, [vals2], mask (none/bool), funcs."""
+    from groupby_lib import GroupBy
+    api.set_config(case)
+    emb = EMB[case.get("emb", "f64")]
+    n = len(case["keys"])
+    tr = {"kind": case["kind"], "keys": case["keys"], "vals": case["vals"], "mask": case["mask"],
+          "cfg": {"kenc": case["kenc"], "funcs": case.get("funcs"), "emb": case.get("emb", "f64"), "vals2": case.get("vals2"), "dvals": case.get("dvals")}}
+    keyobj, encs = api.build_keys(case)
+    values = pd.Series(emb.enc(case["vals"]), name="v")
+    mask = api.build_mask(case["mask"], n)
+    try:
+        gb = call(GroupBy, keyobj)
+        if case["kind"] == "agg":
+            funcs = case["funcs"]
+            out = call(gb.agg, values, funcs, mask=mask)
+            tr["labels"] = _labels_of(out.index, encs)
+            tr["cols"] = [[to_rat(x) for x in np.asarray(out[f], dtype=float).tolist()] for f in funcs]
+            tr["singles"], tr["slabels"] = [], []
+            for f in funcs:
+                s = call(getattr(gb, f), values, mask=mask)
+                tr["singles"].append([to_rat(x) for x in np.asarray(s, dtype=float).tolist()])
+                tr["slabels"].append(_labels_of(s.index, encs))
+        elif case["kind"] == "ratio":
+            v2 = pd.Series(emb.enc(case["vals2"]), name="w")
+            r = call(gb.ratio, values, v2, mask=mask)
+            s1 = call(gb.sum, values, mask=mask)
+            s2 = call(gb.sum, v2, mask=mask)
+            tr["r"] = [to_rat(x) if np.isfinite(x) else [JUNK, 1] for x in np.asarray(r, dtype=float).tolist()]
+            tr["s1"] = [int(x) for x in np.asarray(s1, dtype=float).tolist()]
+            tr["s2"] = [int(x) for x in np.asarray(s2, dtype=float).tolist()]
+        else:
+            if case.get("dvals"):
+                d = call(gb.density, values, mask=mask)
+                sz = call(gb.sum, values, mask=mask)
+            else:
+                d = call(gb.density, mask=mask)
+                sz = call(gb.size, mask=mask)
+            tr["d"] = [to_rat(x) for x in np.asarray(d, dtype=float).tolist()]
+            tr["sizes"] = [int(x) for x in np.asarray(sz, dtype=float).tolist()]
+            tr["same_labels"] = int(list(d.index) == list(sz.index))
+    except Exception as ex:
+        tr.update(out="raise", exc=type(ex).__name__, msg=str(ex)[:160])
+        return tr
+    tr["out"] = "ok"
+    return tr
